@@ -1,5 +1,5 @@
 import DFV.JsonField
-import DFV.Model.C06
+import DFV.Model.C06Hist
 namespace DFV.Drv
 open Lean DFV DFV.C06
 
@@ -24,6 +24,9 @@ def c06On (f : Fld) (op : String) (j : Json) : R Json :=
   | "integrate" => do
       let cum ← boolOfJson (← fld j "cumulative")
       pure (resJ resToJson (integrate f (dirOfJson j) cum))
+  | "integrate_abs" => do
+      let cum ← boolOfJson (← fld j "cumulative")
+      pure (resJ resToJson (integrate (absF f) (dirOfJson j) cum))
   | "mean" => pure (resJ resToJson (mean f (dirOfJson j)))
   | "integrate_seq" => do
       let ds ← strs j "dirs"
@@ -33,6 +36,26 @@ def c06On (f : Fld) (op : String) (j : Json) : R Json :=
       pure (resJ meshToJson (sel f.mesh d))
   | "dV" => pure (Json.mkObj [("ok", ratToJson (dV f.mesh)), ("cell", ratsJ f.mesh.cell)])
   | _ => throw s!"unknown sub-op {op}"
+
+/-- one in-place history step: `{"op": "scale", "factor": q | [q…], "ref": [q…] | null,
+"target": "mesh" | "region"}` or `{"op": "translate", "vector": [q…], "target": …}` -/
+def hstepOfJson (j : Json) : R C06.HStep := do
+  let o ← strOfJson (← fld j "op")
+  let tgt ← strOfJson (← fld j "target")
+  match o with
+  | "scale" =>
+    let fj ← fld j "factor"
+    let fac ← match fj with
+      | .arr _ => T.Factor.vec <$> listOf ratOfJson fj
+      | _ => T.Factor.scalar <$> ratOfJson fj
+    let ref ← match fldOpt j "ref" with
+      | none => pure none
+      | some v => some <$> listOf ratOfJson v
+    pure (if tgt == "region" then .scaleRegion fac ref else .scaleMesh fac ref)
+  | "translate" =>
+    let v ← rats j "vector"
+    pure (if tgt == "region" then .translateRegion v else .translateMesh v)
+  | _ => throw s!"unknown history step {o}"
 
 /-- driver ops of property C06 -/
 def c06 (op : String) (j : Json) : Option (R Json) :=
@@ -44,6 +67,18 @@ def c06 (op : String) (j : Json) : Option (R Json) :=
         let o ← strOfJson (← fld r "op")
         c06On f o r
       pure (Json.mkObj [("ok", .arr outs.toArray)])
+  | "hist" => some do
+      -- the model evolves the mesh itself: every state of the field along the in-place history,
+      -- with the mesh it then has and the answers to the same requests
+      let f ← fldOfJson (← fld j "field")
+      let steps ← listOf hstepOfJson (← fld j "steps")
+      let reqs ← arr (← fld j "reqs")
+      let outs ← (statesH f steps).mapM fun g => do
+        let rs ← reqs.toList.mapM fun r => do
+          let o ← strOfJson (← fld r "op")
+          c06On g o r
+        pure (Json.mkObj [("mesh", meshToJson g.mesh), ("outs", .arr rs.toArray)])
+      pure (Json.mkObj [("ok", .arr outs.toArray), ("vol", ratToJson (histVol f.mesh steps))])
   | "integrate" => some do
       let f ← fldOfJson (← fld j "field")
       let cum ← boolOfJson (← fld j "cumulative")
